@@ -1,15 +1,15 @@
 SPECIFICATION Spec
 CONSTANTS
-  Chains <- QChains
+  Chains <- TLChains
   NX = 4
   CondTab <- MCCondTab
   CondDen <- MCCondDen
   BaseTab <- MCBaseTab
-  MaxN = 2
-  IncDom = {0, 1}
-  MaxLen = 3
-  IterArgs = {0, 2}
-  StoreArgs = {1}
+  MaxN = 13
+  IncDom = {0, 10, 11, 12}
+  MaxLen = 14
+  IterArgs = {10, 12}
+  StoreArgs = {11}
 VIEW View
 INVARIANT TypeOK
 INVARIANT OnlyLagrangeStores
@@ -20,6 +20,7 @@ INVARIANT LagIneqFeasibleNotPenalised
 INVARIANT StackedAdd
 INVARIANT ZeroDivisionInfinite
 INVARIANT ErrorIsViolation
+INVARIANT Representable
 PROPERTY ClearResets
 PROPERTY IterAdvances
 PROPERTY StoreFootprint
